@@ -40,6 +40,19 @@ func parseAttrInfo(n *yaml.Node) describedAttr {
 	return d
 }
 
+// the symbol as it can follow a root in a chord text: `_` first where the lexer would otherwise read its first rune
+// as something else (a digit, an accidental, a note letter, a rest)
+func describeSym(sym string) string {
+	if sym == "" {
+		return ""
+	}
+	c := sym[0]
+	if c >= 'a' && c <= 'z' && c != 'b' {
+		return sym
+	}
+	return "_" + sym
+}
+
 func streamCdescribe() {
 	s, done := openStream("cdescribe")
 	defer done()
@@ -135,6 +148,15 @@ func streamCdescribe() {
 			c.chords = append(c.chords, d)
 		}
 		c.sym = c.chords[r.Intn(len(c.chords))].display
+		if r.Intn(5) == 0 { // a built-in long name defined again under a new symbol; the old symbol still means the old chord
+			bn := [][2]string{{"DominantSeventh", "7"}, {"MinorSeventh", "m7"}, {"MajorSeventh", "M7"}, {"Sixth", "6"}, {"DiminishedTriad", "dim"}, {"SuspendedFourth", "sus4"}, {"MinorTriad", "m"}}[r.Intn(7)]
+			d := rawChordDef{name: bn[0], display: fmt.Sprintf("z%d", r.Intn(3)), attrs: []string{"Perfect1", pool[r.Intn(len(pool))], pool[r.Intn(len(pool))]}}
+			if r.Intn(3) == 0 {
+				d.extends = bn[1]
+			}
+			c.chords = append(c.chords, d)
+			c.sym = []string{bn[1], bn[0], d.display}[r.Intn(3)]
+		}
 		if r.Intn(6) == 0 {
 			c.sym = []string{"", "m7", "M9", "7", "aug", "nosuch"}[r.Intn(6)]
 		}
@@ -190,7 +212,7 @@ func streamCdescribe() {
 			dictArgs = append(dictArgs, "--chord", filepath.Join(dir, "chord.yml"))
 		}
 		root := string(letters[c.letter-1]) + accs[c.acc-1]
-		args := append([]string{"info", "chord", "describe", "-t", root + symText(c.sym)}, dictArgs...)
+		args := append([]string{"info", "chord", "describe", "-t", root + describeSym(c.sym)}, dictArgs...)
 		if c.sharp {
 			args = append(args, "-s")
 		}
@@ -255,7 +277,7 @@ func streamCdescribe() {
 		s.stat("class-" + strings.SplitN(results[i], " ", 2)[0])
 		for _, p := range problems[i] {
 			_, ch := dictYAML(c.attrs, c.chords)
-			s.violate("C15", "an interval is described differently inside a chord and alone", fmt.Sprintf("crd info chord describe -t %s%s (sharp=%v) with chords:\n%s", string(letters[c.letter-1])+accs[c.acc-1], symText(c.sym), c.sharp, ch), p)
+			s.violate("C15", "an interval is described differently inside a chord and alone", fmt.Sprintf("crd info chord describe -t %s%s (sharp=%v) with chords:\n%s", string(letters[c.letter-1])+accs[c.acc-1], describeSym(c.sym), c.sharp, ch), p)
 		}
 	}
 }
